@@ -66,6 +66,8 @@ class Model:
         self.p = subprocess.Popen([coredrv], stdin=subprocess.PIPE, stdout=subprocess.PIPE, text=True, bufsize=1)
         self.names = []      # index -> raw model handle
         self.idx = {}        # raw -> index
+        self.prios = None    # registration-order oracle: one list of label hex strings per library epoch
+        self.epoch = 0
 
     def close(self):
         try:
@@ -216,8 +218,32 @@ class Model:
             if t is None:
                 return {'unmodelled': True}
             m = 'findinit %d %s' % (self.harg(w[1]), t)
+            if self.prios is not None and self.epoch < len(self.prios):
+                pr = self.prios[self.epoch]
+                m += ' %d' % len(pr) + ''.join(' ' + (x if x else '.') for x in pr)
         elif op == 'find':
             m = 'find %d %d' % (self.harg(w[1]), int(w[2], 0))
+        elif op == 'findseq':
+            hs, ns = [], []
+            for z in w[2:]:
+                r = self.ask('find %d %d' % (self.harg(w[1]), int(z, 0))).split()
+                if not r or r[0] == 'unmodelled':
+                    return {'unmodelled': True}
+                if r[0] == 'rv':
+                    return {'rv': int(r[1])}
+                got = [int(x) for x in r[2:]]
+                ns.append(len(got))
+                hs += got
+            unk = []
+            for h in hs:
+                if h not in self.idx:
+                    lab = self.ask('label %d' % h).split()
+                    l = lab[1] if len(lab) > 1 else '-'
+                    unk.append((bytes.fromhex('' if l in ('-', '.') else l), h))
+            unk = sorted(set(unk))
+            for (_, h) in unk:
+                self.bind(h)
+            return {'rv': 0, 'n': len(hs), 'ns': ns, 'objs': sorted(self.idx[h] for h in hs)}
         elif op == 'findfinal':
             m = 'findfinal %d' % self.harg(w[1])
         elif op in ('encinit', 'decinit', 'signinit', 'verifyinit'):
@@ -230,6 +256,7 @@ class Model:
             return {'unmodelled': True}
         if op == 'newproc' or (op == 'fini' and r[0] == 'rv' and r[1] == '0'):
             self.names, self.idx = [], {}
+            self.epoch += 1
         if r[0] == 'noslot':
             return {'rv': 'noslot'}
         if r[0] == 'rv':
@@ -258,6 +285,27 @@ class Model:
                 self.bind(h)
             return {'rv': 0, 'n': len(hs), 'objs': sorted(self.idx[h] for h in hs)}
         return {'unmodelled': True}
+
+
+def registration_oracle(ops, real):
+    """per library epoch (split at newproc / successful fini): the labels of objects first seen through a
+    search, ordered by the handle value the implementation gave them (= its registration order)"""
+    epochs = [[]]
+    for line, r in zip(ops, real):
+        op = line.split()[0]
+        if op == 'newproc' or (op == 'fini' and r.get('rv') == '0x0'):
+            epochs.append([])
+            continue
+        if op in ('find', 'findseq') and r.get('rv') == '0x0' and r.get('newlabels'):
+            pairs = dict((a, int(b)) for a, b in (x.split(':') for x in r.get('pairs', '').split(',') if x))
+            names = sorted(pairs, key=lambda n: int(n[1:]))
+            labs = r['newlabels'].split(',')
+            new = names[len(names) - len(labs):] if len(labs) <= len(names) else []
+            # new names are the highest indices of this result, in label order
+            allnew = sorted(names, key=lambda n: int(n[1:]))[-len(labs):]
+            for n, l in zip(allnew, labs):
+                epochs[-1].append((pairs[n], l))
+    return [[l for _, l in sorted(e)] for e in epochs]
 
 
 # ------------------------------------------------------------------------------------------- comparison
@@ -301,6 +349,10 @@ def compare(line, real, model):
             else:
                 if rx not in ('',):
                     return 'attribute 0x%x: implementation wrote %s where the model writes nothing' % (mt, rx)
+    if 'ns' in model:
+        rns = [int(x) for x in real.get('ns', '').split(',') if x != '']
+        if rns != model['ns']:
+            return 'find batch sizes: implementation %s, model %s' % (rns, model['ns'])
     if 'n' in model:
         if int(real.get('n', -1)) != model['n']:
             return 'find count: implementation %s, model %s' % (real.get('n'), model['n'])
